@@ -1,0 +1,13 @@
+//go:build verif
+
+package pool
+
+// Read-only exports for the verification harness of property C15 (build tag verif only).
+
+// VerifC15ValueBufferSize is the size of the inline value buffer of a Message.
+const VerifC15ValueBufferSize = valueBufferSize
+
+// VerifC15ValueBufferLen returns the number of unused bytes of the value buffer (its current length).
+func (r *Message) VerifC15ValueBufferLen() int {
+	return len(r.valueBuffer)
+}
